@@ -88,4 +88,12 @@ def allowedWriters : List (String × String) :=
 
 def globalsOK (gen : List (String × String)) : Bool := gen.all (allowedWriters.contains ·)
 
+/-! ### zero-copy conversions -/
+
+/-- `internal.UnsafeBytes2Str(x)` shares `x`'s backing array with the returned string: every use in
+package `valid` converts a buffer made in the same function (`make`), after the last write to it and
+outside any loop — so no later call (and no later iteration) can change a string already handed out -/
+def aliasOK (facts : List (String × String × String × Bool × Bool)) : Bool :=
+  facts.all fun f => f.2.2.1 == "make" && !f.2.2.2.1 && !f.2.2.2.2
+
 end PGV.Expected
